@@ -51,6 +51,53 @@ def decoded_operands(X, mnemonic, prefix):
     return me.arg
 
 
+def renamed_copies(X):
+    """x86mndb.<x>_m -> mnemonic name: the renamed row copies x86allmncs.__init__ creates (self.<x>_m.name = "<name>")."""
+    init = X.arch.method('x86allmncs', '__init__')
+    out = {}
+    for st in init.body:
+        if isinstance(st, ast.Assign) and isinstance(st.targets[0], ast.Attribute) and u(st.targets[0]).startswith('self.') and u(st.targets[0]).endswith('_m.name') \
+                and isinstance(st.value, ast.Constant):
+            out[u(st.targets[0])[5:-5]] = st.value.value
+    if len(out) < 8:
+        raise AnalysisError('x86allmncs.__init__: expected the renamed row copies (pushfw_m, lodsw_m, ...), found %d' % len(out))
+    return out
+
+
+def decoded_name(X, mnemonic, opmode, prefix=(), modifs=None):
+    """(mnemonic name, prefix list) after x86_mn.special_opcodes, for an operand-less row named `mnemonic` decoded under `opmode`:
+    the whole method body is evaluated."""
+    name, _, pfx = special(X, mnemonic, opmode, prefix, modifs, [])
+    return name, pfx
+
+
+def special(X, mnemonic, opmode, prefix=(), modifs=None, args=()):
+    """(mnemonic name, operand list, prefix list) after x86_mn.special_opcodes for a row named `mnemonic` decoded under `opmode` with the
+    operands `args`: the whole method body is evaluated."""
+    arch, afs = X.arch, X.afs
+    sp = arch.method('x86_mn', 'special_opcodes')
+    me, m = Obj('self'), Obj('m')
+    m.name = mnemonic
+    md = dict((X.env[k], None) for k in ('w8', 'se', 'sw', 'ww', 'sg', 'dr', 'cr', 'ft', 'w64', 'sd', 'wd', 'bkf', 'spf', 'dtf', 'mmx') if k in X.env)
+    md.update(modifs or {})
+    m.modifs = md
+    me.m, me.prefix, me.arg, me.opmode, me.admode = m, list(prefix), [dict(a) for a in args], opmode, afs.u32
+    env = _env(X)
+    env.update({'self': me, 'u08': afs.u08, 'u16': afs.u16, 'u32': afs.u32})
+    xm = Obj('x86mndb')
+    for k, nm in renamed_copies(X).items():
+        o = Obj(k)
+        o.name, o.modifs = nm, md
+        setattr(xm, k, o)
+    env['x86mndb'] = xm
+    ev = Evaluator(env)
+    try:
+        ev.exec_stmts(sp.body, ev.env)
+    except NotConst as e:
+        raise AnalysisError('special_opcodes is outside the statically evaluable subset for %s: %s' % (mnemonic, e))
+    return me.m.name, list(me.arg), list(me.prefix)
+
+
 def rendered_operands(X, mnemonic, args):
     """The operand dictionaries x86_mn.__str__ goes on to print for a string mnemonic whose decoded operands are `args`: the statements that
     elide / reorder them (those that assign args[0:2] and their elif arms) are executed as written."""
